@@ -9,14 +9,17 @@ import Proofs.ExtractShape
 namespace Pyx.Extract
 
 /-- the containment chain of a packageable element reaches the component `root`:
-    PE_PE -> (EP_PKG | C_C) -> its PE_PE -> … -> C_C `root` -/
-inductive Reaches (cs : List Container) (root : Nat) : Parent → Prop where
-  | here {k : Container} : findContainer cs true root = some k → Reaches cs root (.comp root)
-  | pkg {p : Nat} {k : Container} : findContainer cs false p = some k → Reaches cs root k.parent → Reaches cs root (.pkg p)
-  | comp {c : Nat} {k : Container} : findContainer cs true c = some k → Reaches cs root k.parent → Reaches cs root (.comp c)
+    PE_PE -> (EP_PKG | C_C) -> its PE_PE -> … -> C_C `root`; from a package the chain may also continue at the PE_PE of
+    a package that REFERS to it (an EP_PKGREF row, R1402: `ref`) -/
+inductive Reaches (cs : List Container) (rf : List PkgRef) (root : Nat) : Parent → Prop where
+  | here {k : Container} : findContainer cs true root = some k → Reaches cs rf root (.comp root)
+  | pkg {p : Nat} {k : Container} : findContainer cs false p = some k → Reaches cs rf root k.parent → Reaches cs rf root (.pkg p)
+  | comp {c : Nat} {k : Container} : findContainer cs true c = some k → Reaches cs rf root k.parent → Reaches cs rf root (.comp c)
+  | ref {p : Nat} {k : Container} {r : PkgRef} {kq : Container} : findContainer cs false p = some k → r ∈ rf →
+      r.referred = p → findContainer cs false r.referring = some kq → Reaches cs rf root kq.parent → Reaches cs rf root (.pkg p)
 
-theorem contained_sound (cs : List Container) (root : Nat) : ∀ (f : Nat) (p : Parent),
-    containedFuel cs root f p = true → Reaches cs root p := by
+theorem contained_sound (cs : List Container) (rf : List PkgRef) (root : Nat) : ∀ (f : Nat) (p : Parent),
+    containedFuel cs rf root f p = true → Reaches cs rf root p := by
   intro f
   induction f with
   | zero => intro p h; simp [containedFuel] at h
@@ -28,7 +31,14 @@ theorem contained_sound (cs : List Container) (root : Nat) : ∀ (f : Nat) (p : 
       simp only [containedFuel] at h
       cases hf : findContainer cs false q with
       | none => simp [hf] at h
-      | some k => rw [hf] at h; exact .pkg hf (ih k.parent h)
+      | some k =>
+        rw [hf] at h
+        simp only [Bool.or_eq_true, List.any_eq_true, Bool.and_eq_true, beq_iff_eq] at h
+        rcases h with h | ⟨r, hr, hrp, h⟩
+        · exact .pkg hf (ih k.parent h)
+        · cases hq : findContainer cs false r.referring with
+          | none => simp [hq] at h
+          | some kq => rw [hq] at h; exact .ref hf hr hrp hq (ih kq.parent h)
     | comp c =>
       simp only [containedFuel] at h
       cases hf : findContainer cs true c with
@@ -40,10 +50,17 @@ theorem contained_sound (cs : List Container) (root : Nat) : ∀ (f : Nat) (p : 
         · subst h; exact .here hf
         · exact .comp hf (ih k.parent h)
 
-/-- the container rows form a forest whose depth the fuel of `containedIn` covers (no cyclic containment) -/
-structure TreeOk (cs : List Container) : Prop where
+/-- THE DOMAIN: the container rows together with the package references form an acyclic graph whose depth the fuel of
+    `containedIn` covers — a rank that drops from every container to its own parent (no cyclic containment) and from
+    every referred package — an EP_PKG row that exists — to the parent of each package referring to it (no reference cycle: a package that refers to a
+    package it lies in would make `is_contained_in` recurse for ever), bounded by the number of container rows (a path
+    in an acyclic graph passes every container at most once).  With `rf = []` this is the containment forest alone. -/
+structure TreeOk (cs : List Container) (rf : List PkgRef) : Prop where
   ex : ∃ depth : Parent → Nat,
-    (∀ k ∈ cs, depth k.parent < depth (if k.isComp then .comp k.id else .pkg k.id)) ∧ ∀ p, depth p ≤ cs.length
+    (∀ k ∈ cs, depth k.parent < depth (if k.isComp then .comp k.id else .pkg k.id)) ∧
+    (∀ r ∈ rf, ∀ k kq, findContainer cs false r.referred = some k → findContainer cs false r.referring = some kq →
+      depth kq.parent < depth (.pkg r.referred)) ∧
+    ∀ p, depth p ≤ cs.length
 
 theorem findContainer_spec {cs : List Container} {b : Bool} {i : Nat} {k : Container}
     (h : findContainer cs b i = some k) : k ∈ cs ∧ k.isComp = b ∧ k.id = i := by
@@ -52,9 +69,36 @@ theorem findContainer_spec {cs : List Container} {b : Bool} {i : Nat} {k : Conta
   simp only [Bool.and_eq_true, beq_iff_eq] at hp
   exact ⟨hm, hp.1, hp.2⟩
 
-theorem contained_complete_fuel {cs : List Container} {root : Nat} (depth : Parent → Nat)
-    (hdec : ∀ k ∈ cs, depth k.parent < depth (if k.isComp then .comp k.id else .pkg k.id)) {p : Parent}
-    (h : Reaches cs root p) : ∀ f, depth p < f → containedFuel cs root f p = true := by
+/-- `TreeOk` from a rank given in decidable form (for concrete diagrams: every clause is then checked by `decide`) -/
+theorem TreeOk.of_rank {cs : List Container} {rf : List PkgRef} (depth : Parent → Nat)
+    (h1 : ∀ k ∈ cs, depth k.parent < depth (if k.isComp then .comp k.id else .pkg k.id))
+    (h2 : ∀ r ∈ rf, (findContainer cs false r.referred).isNone = true ∨
+      (findContainer cs false r.referring).all (fun kq => decide (depth kq.parent < depth (.pkg r.referred))) = true)
+    (h3 : ∀ p, depth p ≤ cs.length) : TreeOk cs rf := by
+  refine ⟨⟨depth, h1, ?_, h3⟩⟩
+  intro r hr k kq hk hq
+  rcases h2 r hr with h | h
+  · rw [hk] at h; cases h
+  · rw [hq] at h; simpa using h
+
+/-- without references the domain is the old one: a containment forest -/
+theorem TreeOk.no_pkgref {cs : List Container} :
+    TreeOk cs [] ↔ ∃ depth : Parent → Nat,
+      (∀ k ∈ cs, depth k.parent < depth (if k.isComp then .comp k.id else .pkg k.id)) ∧ ∀ p, depth p ≤ cs.length := by
+  constructor
+  · rintro ⟨depth, h1, _, h3⟩; exact ⟨depth, h1, h3⟩
+  · rintro ⟨depth, h1, h3⟩; exact ⟨⟨depth, h1, (fun r hr => by cases hr), h3⟩⟩
+
+/-- dropping reference rows stays inside the domain -/
+theorem TreeOk.mono {cs : List Container} {rf rf' : List PkgRef} (h : ∀ r ∈ rf', r ∈ rf) (t : TreeOk cs rf) : TreeOk cs rf' := by
+  obtain ⟨depth, h1, h2, h3⟩ := t.ex
+  exact ⟨⟨depth, h1, fun r hr => h2 r (h r hr), h3⟩⟩
+
+theorem contained_complete_fuel {cs : List Container} {rf : List PkgRef} {root : Nat} (depth : Parent → Nat)
+    (hdec : ∀ k ∈ cs, depth k.parent < depth (if k.isComp then .comp k.id else .pkg k.id))
+    (href : ∀ r ∈ rf, ∀ k kq, findContainer cs false r.referred = some k → findContainer cs false r.referring = some kq →
+      depth kq.parent < depth (.pkg r.referred))
+    {p : Parent} (h : Reaches cs rf root p) : ∀ f, depth p < f → containedFuel cs rf root f p = true := by
   induction h with
   | @here k hk =>
     intro f hf
@@ -66,7 +110,8 @@ theorem contained_complete_fuel {cs : List Container} {root : Nat} (depth : Pare
     cases f with
     | zero => omega
     | succ f =>
-      simp only [containedFuel, hk]
+      simp only [containedFuel, hk, Bool.or_eq_true]
+      left
       obtain ⟨hm, hb, hi⟩ := findContainer_spec hk
       have := hdec k hm
       rw [hb, hi] at this
@@ -84,23 +129,142 @@ theorem contained_complete_fuel {cs : List Container} {root : Nat} (depth : Pare
       rw [hb, hi] at this
       simp only [if_true] at this
       exact ih f (by omega)
+  | @ref q k r kq hk hr hrp hq _ ih =>
+    intro f hf
+    cases f with
+    | zero => omega
+    | succ f =>
+      simp only [containedFuel, hk, Bool.or_eq_true, List.any_eq_true, Bool.and_eq_true, beq_iff_eq]
+      right
+      refine ⟨r, hr, hrp, ?_⟩
+      rw [hq]
+      have := href r hr k kq (hrp ▸ hk) hq
+      rw [hrp] at this
+      exact ih f (by omega)
 
-/-- `is_contained_in` decides exactly "the containment chain reaches the component" -/
-theorem contained_iff {cs : List Container} (tree : TreeOk cs) (root : Nat) (p : Parent) :
-    containedIn cs root p = true ↔ Reaches cs root p := by
+/-- `is_contained_in` decides exactly "the containment chain — continued over package references — reaches the
+    component"; on the domain `TreeOk` the fuel is never exhausted -/
+theorem contained_iff {cs : List Container} {rf : List PkgRef} (tree : TreeOk cs rf) (root : Nat) (p : Parent) :
+    containedIn cs rf root p = true ↔ Reaches cs rf root p := by
   constructor
-  · exact contained_sound cs root _ p
+  · exact contained_sound cs rf root _ p
   · intro h
-    obtain ⟨depth, hdec, hb⟩ := tree.ex
-    exact contained_complete_fuel depth hdec h _ (by have := hb p; omega)
+    obtain ⟨depth, hdec, href, hb⟩ := tree.ex
+    exact contained_complete_fuel depth hdec href h _ (by have := hb p; omega)
+
+/-- MORE FUEL CHANGES NOTHING on the domain: whatever fuel above the depth the Python recursion is given, the answer is
+    the one `containedIn` computes (so `cs.length + 1` is not a cut-off) -/
+theorem contained_fuel_irrelevant {cs : List Container} {rf : List PkgRef} (tree : TreeOk cs rf) (root : Nat) (p : Parent)
+    (f : Nat) (hf : cs.length < f) : containedFuel cs rf root f p = containedIn cs rf root p := by
+  obtain ⟨depth, hdec, href, hb⟩ := tree.ex
+  cases h : containedIn cs rf root p with
+  | true =>
+    exact contained_complete_fuel depth hdec href ((contained_iff tree root p).mp h) f (by have := hb p; omega)
+  | false =>
+    cases h' : containedFuel cs rf root f p with
+    | false => rfl
+    | true =>
+      have := (contained_iff tree root p).mpr (contained_sound cs rf root f p h')
+      rw [h] at this; cases this
+
+/-! ### conservative extension: a diagram without package references behaves as before -/
+
+/-- without EP_PKGREF rows `containedFuel` is the plain walk up the containment (the definition the model had before
+    package references entered it) -/
+theorem containedFuel_no_pkgref (cs : List Container) (root : Nat) :
+    ∀ (f : Nat) (p : Parent), containedFuel cs [] root f p = containedFuelPlain cs root f p := by
+  intro f
+  induction f with
+  | zero => intro p; rfl
+  | succ f ih =>
+    intro p
+    cases p with
+    | none => rfl
+    | pkg q =>
+      simp only [containedFuel, containedFuelPlain, List.any_nil, Bool.or_false]
+      cases findContainer cs false q with
+      | none => rfl
+      | some k => exact ih k.parent
+    | comp c =>
+      simp only [containedFuel, containedFuelPlain]
+      cases findContainer cs true c with
+      | none => rfl
+      | some k => simp only; rw [ih k.parent]
+
+/-- a reference row that no package is the target of, or whose referring package does not exist, changes nothing; more
+    generally only the rows whose both ends exist matter -/
+theorem containedFuel_rows_congr (cs : List Container) {rf rf' : List PkgRef} (root : Nat)
+    (h : ∀ r, (r ∈ rf ∧ (findContainer cs false r.referring).isSome ∧ (findContainer cs false r.referred).isSome) ↔
+              (r ∈ rf' ∧ (findContainer cs false r.referring).isSome ∧ (findContainer cs false r.referred).isSome)) :
+    ∀ (f : Nat) (p : Parent), containedFuel cs rf root f p = containedFuel cs rf' root f p := by
+  intro f
+  induction f with
+  | zero => intro p; rfl
+  | succ f ih =>
+    intro p
+    cases p with
+    | none => rfl
+    | pkg q =>
+      simp only [containedFuel]
+      cases hk : findContainer cs false q with
+      | none => rfl
+      | some k =>
+        simp only
+        rw [ih k.parent]
+        congr 1
+        rw [Bool.eq_iff_iff]
+        simp only [List.any_eq_true, Bool.and_eq_true, beq_iff_eq]
+        constructor
+        · rintro ⟨r, hr, hrp, hc⟩
+          cases hq : findContainer cs false r.referring with
+          | none => simp [hq] at hc
+          | some kq =>
+            rw [hq] at hc
+            simp only at hc
+            have := (h r).mp ⟨hr, by simp [hq], by simp [hrp, hk]⟩
+            exact ⟨r, this.1, hrp, by rw [hq]; simp only; rw [← ih]; exact hc⟩
+        · rintro ⟨r, hr, hrp, hc⟩
+          cases hq : findContainer cs false r.referring with
+          | none => simp [hq] at hc
+          | some kq =>
+            rw [hq] at hc
+            simp only at hc
+            have := (h r).mpr ⟨hr, by simp [hq], by simp [hrp, hk]⟩
+            exact ⟨r, this.1, hrp, by rw [hq]; simp only; rw [ih]; exact hc⟩
+    | comp c =>
+      simp only [containedFuel]
+      cases findContainer cs true c with
+      | none => rfl
+      | some k => simp only; rw [ih k.parent]
+
+/-- a relation without references is the containment chain alone -/
+theorem reaches_no_pkgref_cases {cs : List Container} {root : Nat} {p : Parent} (h : Reaches cs [] root p) :
+    (∃ k, p = .comp root ∧ findContainer cs true root = some k) ∨
+    (∃ q k, p = .pkg q ∧ findContainer cs false q = some k ∧ Reaches cs [] root k.parent) ∨
+    (∃ c k, p = .comp c ∧ findContainer cs true c = some k ∧ Reaches cs [] root k.parent) := by
+  cases h with
+  | here hk => exact Or.inl ⟨_, rfl, hk⟩
+  | pkg hk h => exact Or.inr (Or.inl ⟨_, _, rfl, hk, h⟩)
+  | comp hk h => exact Or.inr (Or.inr ⟨_, _, rfl, hk, h⟩)
+  | ref _ hr _ _ _ => cases hr
+
+/-- more reference rows, more reach -/
+theorem reaches_mono_rows {cs : List Container} {rf rf' : List PkgRef} (hsub : ∀ r ∈ rf, r ∈ rf') {root : Nat} {p : Parent}
+    (h : Reaches cs rf root p) : Reaches cs rf' root p := by
+  induction h with
+  | here hk => exact .here hk
+  | pkg hk _ ih => exact .pkg hk ih
+  | comp hk _ ih => exact .comp hk ih
+  | ref hk hr hrp hq _ ih => exact .ref hk (hsub _ hr) hrp hq ih
 
 /-- component `c1` lies inside component `c2` (or is `c2`): everything inside `c1` is inside `c2` -/
-theorem reaches_trans {cs : List Container} {c1 c2 : Nat} (h12 : Reaches cs c2 (.comp c1)) {p : Parent}
-    (h : Reaches cs c1 p) : Reaches cs c2 p := by
+theorem reaches_trans {cs : List Container} {rf : List PkgRef} {c1 c2 : Nat} (h12 : Reaches cs rf c2 (.comp c1)) {p : Parent}
+    (h : Reaches cs rf c1 p) : Reaches cs rf c2 p := by
   induction h with
   | here _ => exact h12
   | pkg hk _ ih => exact .pkg hk ih
   | comp hk _ ih => exact .comp hk ih
+  | ref hk hr hrp hq _ ih => exact .ref hk hr hrp hq ih
 
 theorem filter_sublist_of_imp {α : Type} {p q : α → Bool} (h : ∀ x, p x = true → q x = true) :
     ∀ l : List α, (l.filter p).Sublist (l.filter q) := by
@@ -126,18 +290,18 @@ theorem filter_filter_of_imp {α : Type} {p q : α → Bool} (h : ∀ x, p x = t
   · simp [h a hp]
 
 section restrict
-variable {d : ClassDiagram} (tree : TreeOk d.containers)
+variable {d : ClassDiagram} (tree : TreeOk d.containers d.pkgrefs)
 
 include tree in
-theorem inScope_mono {c1 c2 : Nat} (h12 : Reaches d.containers c2 (.comp c1)) (p : Parent)
-    (h : inScope d.containers (some c1) p = true) : inScope d.containers (some c2) p = true := by
+theorem inScope_mono {c1 c2 : Nat} (h12 : Reaches d.containers d.pkgrefs c2 (.comp c1)) (p : Parent)
+    (h : inScope d.containers d.pkgrefs (some c1) p = true) : inScope d.containers d.pkgrefs (some c2) p = true := by
   simp only [inScope] at h ⊢
   exact (contained_iff tree c2 p).mpr (reaches_trans h12 ((contained_iff tree c1 p).mp h))
 
 include tree in
 /-- restriction is monotone: component ⊆ enclosing component ⊆ whole model, for classes and associations, each
     kept definition being literally the same -/
-theorem restrict_monotone' {c1 c2 : Nat} (h12 : Reaches d.containers c2 (.comp c1)) (drv : Bool) :
+theorem restrict_monotone' {c1 c2 : Nat} (h12 : Reaches d.containers d.pkgrefs c2 (.comp c1)) (drv : Bool) :
     (extract d (some c1) drv).classes.Sublist (extract d (some c2) drv).classes ∧
     (extract d (some c2) drv).classes.Sublist (extract d none drv).classes ∧
     (extract d (some c1) drv).groups.Sublist (extract d (some c2) drv).groups ∧
@@ -152,11 +316,11 @@ theorem restrict_monotone' {c1 c2 : Nat} (h12 : Reaches d.containers c2 (.comp c
 include tree in
 /-- restricting the restriction: filtering the classes / relationships of the enclosing component `c2` by
     containment in `c1` gives the restriction to `c1` (for `c1 = c2`: restricting twice = restricting once) -/
-theorem restrict_compose' {c1 c2 : Nat} (h12 : Reaches d.containers c2 (.comp c1)) (drv : Bool) :
-    ((d.classes.filter (fun k => inScope d.containers (some c2) k.parent)).filter
-        (fun k => inScope d.containers (some c1) k.parent)).map (classOf d drv) = (extract d (some c1) drv).classes ∧
-    ((d.rels.filter (fun r => inScope d.containers (some c2) r.parent)).filter
-        (fun r => inScope d.containers (some c1) r.parent)).filterMap (groupOf d) = (extract d (some c1) drv).groups := by
+theorem restrict_compose' {c1 c2 : Nat} (h12 : Reaches d.containers d.pkgrefs c2 (.comp c1)) (drv : Bool) :
+    ((d.classes.filter (fun k => inScope d.containers d.pkgrefs (some c2) k.parent)).filter
+        (fun k => inScope d.containers d.pkgrefs (some c1) k.parent)).map (classOf d drv) = (extract d (some c1) drv).classes ∧
+    ((d.rels.filter (fun r => inScope d.containers d.pkgrefs (some c2) r.parent)).filter
+        (fun r => inScope d.containers d.pkgrefs (some c1) r.parent)).filterMap (groupOf d) = (extract d (some c1) drv).groups := by
   unfold extract
   constructor
   · rw [filter_filter_of_imp (fun k h => inScope_mono tree h12 k.parent h)]
@@ -167,9 +331,9 @@ include tree in
     association is kept iff the containment chain of its R_REL reaches the component — whatever its classes -/
 theorem restrict_exact' (c : Nat) (drv : Bool) :
     (∀ s, s ∈ (extract d (some c) drv).classes ↔
-      ∃ k ∈ d.classes, Reaches d.containers c k.parent ∧ s = classOf d drv k) ∧
+      ∃ k ∈ d.classes, Reaches d.containers d.pkgrefs c k.parent ∧ s = classOf d drv k) ∧
     (∀ g, g ∈ (extract d (some c) drv).groups ↔
-      ∃ r ∈ d.rels, Reaches d.containers c r.parent ∧ groupOf d r = some g) := by
+      ∃ r ∈ d.rels, Reaches d.containers d.pkgrefs c r.parent ∧ groupOf d r = some g) := by
   unfold extract
   constructor
   · intro s
